@@ -439,7 +439,7 @@ func (s *scope) setInstance(descriptor *Descriptor, key instanceKey, instance an
 		// becomes visible in the cache: a service that finds it there and
 		// receives it as a dependency is then listed after it, and therefore
 		// closed before it.
-		if d, ok := instance.(Disposable); ok {
+		if d, ok := disposableOf(instance); ok {
 			s.disposablesMu.Lock()
 			if s.disposablesClosed {
 				s.disposablesMu.Unlock()
@@ -467,7 +467,7 @@ func (s *scope) setInstance(descriptor *Descriptor, key instanceKey, instance an
 		s.instances[key] = instance
 		s.instancesMu.Unlock()
 	case Transient:
-		if d, ok := instance.(Disposable); ok {
+		if d, ok := disposableOf(instance); ok {
 			s.disposablesMu.Lock()
 			if s.disposablesClosed {
 				s.disposablesMu.Unlock()
@@ -485,12 +485,8 @@ func (s *scope) setInstance(descriptor *Descriptor, key instanceKey, instance an
 // into the disposal list of its owner: the provider for a singleton
 // registration, this scope otherwise.
 func (s *scope) ownDropped(lifetime Lifetime, value any) error {
-	d, ok := value.(Disposable)
+	d, ok := disposableOf(value)
 	if !ok {
-		return nil
-	}
-
-	if v := reflect.ValueOf(value); v.Kind() == reflect.Pointer && v.IsNil() {
 		return nil
 	}
 
@@ -516,7 +512,7 @@ func (s *scope) ownDropped(lifetime Lifetime, value any) error {
 // rejectInstance disposes an instance that was constructed while the scope was
 // being closed and reports the scope as disposed.
 func (s *scope) rejectInstance(instance any) error {
-	if d, ok := instance.(Disposable); ok {
+	if d, ok := disposableOf(instance); ok {
 		if err := d.Close(); err != nil {
 			return fmt.Errorf("%w: failed to dispose instance created during close: %w", ErrScopeDisposed, err)
 		}
@@ -960,6 +956,22 @@ func (s *scope) cacheInstanceAt(lifetime Lifetime, key instanceKey, instance any
 		}
 		s.instancesMu.Unlock()
 	}
+}
+
+// disposableOf returns instance as a Disposable if there is something to close:
+// a nil pointer that a constructor returned as one of its results is not an
+// instance, and Close must not be called on it.
+func disposableOf(instance any) (Disposable, bool) {
+	d, ok := instance.(Disposable)
+	if !ok {
+		return nil, false
+	}
+
+	if v := reflect.ValueOf(instance); v.Kind() == reflect.Pointer && v.IsNil() {
+		return nil, false
+	}
+
+	return d, true
 }
 
 // sameObject reports whether a and b are one and the same heap object: equal
